@@ -23,13 +23,13 @@ CHECKS = {
   "Merged breadth-first search over add/next/add(negative) histories of the real Streamix (tie-free delta alphabet, <=3 live events, depth 6; thorough 8) plus exhaustive unmerged programs (k<=3 events x 9 deltas x 3 lengths x every non-decreasing insertion point, exact ties accepted either way; thorough k<=4), long non-dyadic accumulations for drift, and all ControlStream assign/read words up to length 8 (thorough 10); oracle is the statement (cumulative start times), not the algorithm.",
   "Item values are opaque labels; adding after StopIteration is outside the contract; depth/size bounds."),
  "C04": (True, "E1", "exploration", E1 + "; symbolic (linear-form) samples decide all numeric inputs of a shape in one run",
-  "Every numerator/denominator coefficient vector of length <=3 (thorough <=4) over {0,1,-1,2,-3,0.5} with a0 in {1,-1,2,-0.5,Fraction(1,2)} is compiled by the real LinearFilter.__call__ and run on symbolic input, symbolic zero and symbolic memory (linear forms over Q, linearity checked not assumed) plus a concrete exact vector, and compared with the textbook recurrence; memory kinds x zero kinds x constructors x input lengths on a sub-alphabet; sparse high delays; negative delays must raise ValueError. Memories are given as list, longer list, generator, callable, Stream and Stream copy; coefficients within 1e-9 of 1 and two-digit delays are in the sparse set; the input sequence is handed over as list, tuple, Stream, iterator, generator and re-iterable object; a decoy filter of the same shape runs first in the same process.",
+  "Every numerator/denominator coefficient vector of length <=3 (thorough <=4) over {0,1,-1,2,-3,0.5} with a0 in {1,-1,2,-0.5,Fraction(1,2)} is compiled by the real LinearFilter.__call__ and run on symbolic input, symbolic zero and symbolic memory (linear forms over Q, linearity checked not assumed) plus a concrete exact vector, and compared with the textbook recurrence; memory kinds x zero kinds x constructors x input lengths on a sub-alphabet; sparse high delays; negative delays must raise ValueError. Memories are given as list, longer list, generator, callable, Stream and Stream copy; coefficients within 1e-9 of 1 and two-digit delays are in the sparse set; the input sequence is handed over as list, tuple, Stream, iterator, generator and re-iterable object; a decoy filter of the same shape runs first in the same process. A `long` kind repeats the oracle on inputs of 64, 65, 128, 129 and hundreds to thousands of items (thresholds of batching / buffering / word size); a `call-routes` kind calls each function with every documented parameter by position, by keyword and every split, and requires unchanged argument containers.",
   "Coefficient alphabet and order bound; coefficients are plain numbers (they are embedded textually by the code generator)."),
  "C05": (True, "E1", "exploration", E1 + "; exact rational-function reference compared by cross-multiplication",
   "All ordered pairs of a 90-filter pool (thorough 400) under + - * / on symbolic input (composite output vs composition of outputs vs reference recurrence vs numpoly/denpoly by cross-multiplication), scalars/unary/powers/delays per filter, all triples of a sub-pool for Cascade/ParallelFilter and the field laws, all expression trees of depth <=2 over {+,-,*,/,**n,f(g)} against exact rational functions, ==/!=/hash on all pairs of (filter, construction route), fractional-delay linearisation.",
   "Pool/depth bounds; dyadic coefficients wherever a signal is run; == is structural equality."),
  "C06": (True, "E1", "exploration", E1 + " with counting sources on every coefficient stream",
-  "Every placement of {absent, constant, 1, finite stream (len 0/2/5), periodic stream, constant stream} on b0..b2 and a0..a2 (60k shapes quick, 230k thorough) built through the dict constructor and Stream*z**-k expressions, run on symbolic input and compared with the time-varying recurrence on coefficient sequences, output length = shortest of input and coefficient streams, each coefficient source read exactly k times after k outputs; sums/products/scalings (incl. one stream feeding several product terms) vs element-by-element sequence arithmetic; constant streams vs constants. Products and quotients whose numerator and denominator share a time-varying factor must not cancel it. Calling a filter reads no coefficient; one filter object applied to two consecutive blocks goes on with the coefficient values after those already read, with one read per output sample over both calls.",
+  "Every placement of {absent, constant, 1, finite stream (len 0/2/5), periodic stream, constant stream} on b0..b2 and a0..a2 (60k shapes quick, 230k thorough) built through the dict constructor and Stream*z**-k expressions, run on symbolic input and compared with the time-varying recurrence on coefficient sequences, output length = shortest of input and coefficient streams, each coefficient source read exactly k times after k outputs; sums/products/scalings (incl. one stream feeding several product terms) vs element-by-element sequence arithmetic; constant streams vs constants. Products and quotients whose numerator and denominator share a time-varying factor must not cancel it. Calling a filter reads no coefficient; one filter object applied to two consecutive blocks goes on with the coefficient values after those already read, with one read per output sample over both calls. A `long` kind repeats the oracle on inputs of 64, 65, 128, 129 and hundreds to thousands of items (thresholds of batching / buffering / word size); a `call-routes` kind calls each function with every documented parameter by position, by keyword and every split, and requires unchanged argument containers.",
   "Order <= 2; degenerate 0/a0[n] shape excluded (see DESIGN.md); a Stream-bearing filter object is consumed by its use (called once, except in the blockwise kind)."),
  "C07": (True, "E1", "exploration", E1,
   "All ordered pairs of a pool of ~130 Laurent polynomials (thorough ~330; support -3..3, <=3 terms, coefficients in {1,-1,2,1/2,-3/2}, cancellation cases included) for + - *, commutativity, ==/!=/hash, evaluation homomorphism under all three schemes at 6 points, derivative linearity and product rule, composition; every polynomial alone for p-p, scalars, powers 0..3 (thorough 0..5), construction routes, order/values, diff/integrate; all triples of a sub-pool for associativity/distributivity; all 5460 Lagrange point sets (1..4 distinct abscissae) for both strategies. Exact Fractions throughout; no stored zero coefficient after any operation.",
@@ -50,10 +50,10 @@ CHECKS = {
   "WAV: files written with the stdlib wave module holding all 256 8-bit values, all 65536 16-bit values, and for 24/32 bit every sample whose bytes are drawn from {00,01,7f,80,fe,ff} (thorough adds 55,aa,10) plus +-2^k, +-2^k+-1, read back through the real WavStream (mono/stereo, keep on/off, by name and by file object, frame counts 0..5) and compared with int.from_bytes arithmetic (independent of struct); header mirrored; file closed exactly at exhaustion. chunks: both strategies x lengths 0..9 (13) x sizes {1,2,3,4,6,default,200,300} x formats b,h,i,f,d x byte orders {None,<,>,=,!} x value rotations incl. the extremes of each width, checked by unpacking the concatenated output and by comparing the two strategies byte for byte. For a file given by name the operating-system descriptor must be closed once the stream is exhausted (/proc/self/fd); long files cross the read-batch boundary; a path is rewritten and re-read inside one case.",
   "Value alphabets for 24/32 bit; type-appropriate values and pad values."),
  "C19": (True, "E1", "exploration", E1 + "; exact rational parameters, symbolic samples for the resampler",
-  "Every generator over its parameter alphabet in exact Q arithmetic: line (8 durations x 5x5 values x finish), ones/zeros/impulse/fades (12 durations incl. None/inf), adsr/attack (constant and stream sustain), noise with an owned random source, modulo_counter over 4 starts x 3 moduli x 9 steps (negative, zero, multiples of the modulo, both internal paths) x all 8 numbers-vs-streams combinations x constant/varying streams and the end-with-shortest-stream rule, TableLookup oscillator/getitem/operators/harmonize/normalize, sinusoid (tolerance for sin only), karplus_strong vs the linearised comb, resample on symbolic inputs of length 0..10 (14) x 7 ratios x orders 0..3 x constant/stream ratios against window-placement + Lagrange basis written from the statement. A float kind of modulo_counter (starts a rounding error below zero, negative modulo, all 8 argument-kind paths) demands the range [0, modulo) and agreement of the paths; resample inputs are handed over as every container kind.",
+  "Every generator over its parameter alphabet in exact Q arithmetic: line (8 durations x 5x5 values x finish), ones/zeros/impulse/fades (12 durations incl. None/inf), adsr/attack (constant and stream sustain), noise with an owned random source, modulo_counter over 4 starts x 3 moduli x 9 steps (negative, zero, multiples of the modulo, both internal paths) x all 8 numbers-vs-streams combinations x constant/varying streams and the end-with-shortest-stream rule, TableLookup oscillator/getitem/operators/harmonize/normalize, sinusoid (tolerance for sin only), karplus_strong vs the linearised comb, resample on symbolic inputs of length 0..10 (14) x 7 ratios x orders 0..3 x constant/stream ratios against window-placement + Lagrange basis written from the statement. A float kind of modulo_counter (starts a rounding error below zero, negative modulo, all 8 argument-kind paths) demands the range [0, modulo) and agreement of the paths; resample inputs are handed over as every container kind. A `long` kind repeats the oracle on inputs of 64, 65, 128, 129 and hundreds to thousands of items (thresholds of batching / buffering / word size); a `call-routes` kind calls each function with every documented parameter by position, by keyword and every split, and requires unchanged argument containers.",
   "Parameter alphabets; modulo streams constant; closed forms excluded where they divide by zero."),
  "C20": (True, "E1", "exploration", E1 + "; symbolic samples for the linear tools",
-  "Moving averages (deque, recursive/feedback, fir) x sizes 1..8 x five zero kinds x lengths on symbolic input against the windowed mean (exact for power-of-two sizes, 4 ulp per coefficient otherwise), one filter object applied to two signals consumed in interleaved orders, all accumulate strategies on symbolic input incl. the empty input; amdf and the three envelope strategies on all sequences of length <=5 (6) over {-2,-1,0,1/2,1,3}; clip (all 16 limit pairs, idempotence, inverted limits), zcross (3 hysteresis x 6 first_sign values against a reference sign automaton) and unwrap (5 (max_delta, step) pairs: multiples of step, untouched when no jump, bounded adjacent jumps) on all sequences of length <=6 (7). Every tool configuration is also fed the same samples as tuple, Stream, one-shot iterator, generator, re-iterable object and Stream of an iterator and must give the list's answer.",
+  "Moving averages (deque, recursive/feedback, fir) x sizes 1..8 x five zero kinds x lengths on symbolic input against the windowed mean (exact for power-of-two sizes, 4 ulp per coefficient otherwise), one filter object applied to two signals consumed in interleaved orders, all accumulate strategies on symbolic input incl. the empty input; amdf and the three envelope strategies on all sequences of length <=5 (6) over {-2,-1,0,1/2,1,3}; clip (all 16 limit pairs, idempotence, inverted limits), zcross (3 hysteresis x 6 first_sign values against a reference sign automaton) and unwrap (5 (max_delta, step) pairs: multiples of step, untouched when no jump, bounded adjacent jumps) on all sequences of length <=6 (7). Every tool configuration is also fed the same samples as tuple, Stream, one-shot iterator, generator, re-iterable object and Stream of an iterator and must give the list's answer. A `long` kind repeats the oracle on inputs of 64, 65, 128, 129 and hundreds to thousands of items (thresholds of batching / buffering / word size); a `call-routes` kind calls each function with every documented parameter by position, by keyword and every split, and requires unchanged argument containers.",
   "Sample alphabet for the non-linear tools; float 1./size rounding bounded, not exact, for non-power-of-two sizes."),
  "C14": (True, "E1", "exploration", E1 + "; float comparison under bounds derived from argument rounding",
   "Every strategy name and alias of window and wsymm (iterated from the dictionaries) x every size 1..512 (thorough 2048) x alpha grids for blackman and cos, each size asked for several alphas in sequence and twice in the same process: length, exact equality of window.X(size) with wsymm.X(size+1)[:size], symmetry, wsymm.X(1) == [1.0], range, documented closed form typed independently (64 ulp), independence of returned lists; hop-shifted sums for hann/hamming/bartlett/rect(+aliases) at size/2 and hann/hamming/blackman at size/4 for every admissible size; alias table and periodic/symm cross references. Returned lists (periodic and symmetric) are modified in place and the same and other strategies asked again: nothing may be shared.",
